@@ -184,10 +184,14 @@ func (r *c26Run) Main(s *sim.Sim) {
 		return
 	}
 	ctx := context.Background()
+	var tagMu sync.Mutex // OnConn runs on whichever goroutine dials
 	tagNext := ""
 	s.Net.OnConn = func(c *sim.Conn) {
-		c.Tag = tagNext
-		if tagNext != "monitored" {
+		tagMu.Lock()
+		tag := tagNext
+		tagMu.Unlock()
+		c.Tag = tag
+		if tag != "monitored" {
 			return
 		}
 		id := c.ID
@@ -233,7 +237,9 @@ func (r *c26Run) Main(s *sim.Sim) {
 	}
 	reqTO := time.Duration(r.RequestMs) * time.Millisecond
 	recon := time.Duration(r.ReconnectMs) * time.Millisecond
+	tagMu.Lock()
 	tagNext = "monitored"
+	tagMu.Unlock()
 	cl, err := newClient(opcua.AutoReconnect(true), opcua.ReconnectInterval(recon), opcua.RequestTimeout(reqTO), opcua.DialTimeout(2*time.Second))
 	if err == nil {
 		err = cl.Connect(ctx)
@@ -301,8 +307,10 @@ func (r *c26Run) Main(s *sim.Sim) {
 	// a writer keeps the nodes changing during the fault phase (fresh client per write burst)
 	seq := int32(0)
 	writeAll := func() bool {
+		tagMu.Lock()
 		tagNext = "writer"
-		defer func() { tagNext = "monitored" }()
+		tagMu.Unlock()
+		defer func() { tagMu.Lock(); tagNext = "monitored"; tagMu.Unlock() }()
 		w, err := newClient(opcua.AutoReconnect(false), opcua.RequestTimeout(reqTO), opcua.DialTimeout(2*time.Second))
 		if err != nil {
 			return false
